@@ -14,10 +14,13 @@ def vshow(v):
 
 
 class Atom:
-    def __init__(self, name, pos, neg=None):
+    def __init__(self, name, pos, neg=None, truth=None):
+        """truth: for non-boolean atoms (enum discriminants) maps the decided value to 0/1, e.g. {1: 1} with
+        everything else (including ('ne', ...)) meaning 0"""
         self.name = name
         self.pos = re.compile(pos)
         self.neg = re.compile(neg) if neg else None
+        self.truth = truth
 
     def match(self, atom_str):
         if self.pos.fullmatch(atom_str):
@@ -39,7 +42,17 @@ def assignment(outcome, atoms, ignore=None):
         for at in atoms:
             m = at.match(s)
             if m:
-                if not isinstance(v, int):
+                if at.truth is not None:
+                    if isinstance(v, int):
+                        val = at.truth.get(v, 0)
+                    else:
+                        # ('ne', excluded): false iff every "true" value is excluded
+                        val = 0 if all(k in v[1] for k, tv in at.truth.items() if tv) else None
+                    if val is None:
+                        unknown.append('%s = %s' % (s, v))
+                    else:
+                        assign[at.name] = val if m == 1 else 1 - val
+                elif not isinstance(v, int):
                     unknown.append('%s = %s' % (s, v))
                 else:
                     val = v if m == 1 else 1 - v
@@ -101,3 +114,51 @@ def check_decision_table(chk, rid, what, where, outs, atoms, observe, spec, igno
                      what, len(dont_care_missing), 2 ** len(names), dict(zip(names, dont_care_missing[0]))),
                  key=kp + '|coverage')
     return len(covered)
+
+
+def _floc(fn):
+    return '%s:%d' % (fn['span']['file'], fn['span']['line'])
+
+
+def check_pred_table(chk, rid, what, fn, outs, atoms, spec):
+    """a boolean function whose value on each trace is a constant or one remaining atom"""
+    names = [a.name for a in atoms]
+    seen = {}
+    for o in outs:
+        if o.kind != 'return':
+            chk.fail(rid, what + ':' + o.kind, _floc(fn), '%s has a %s trace' % (what, o.kind), key='%s|%s|%s' % (rid, what, o.kind))
+            continue
+        assign, unknown = assignment(o, atoms)
+        val = vshow(o.value)
+        # a returned atom term counts as "decided by that atom"
+        free_val = None
+        if val not in ('0', '1'):
+            for at in atoms:
+                m = at.match(val)
+                if m:
+                    free_val = (at.name, m)
+            if free_val is None:
+                unknown.append('returns ' + val)
+        if unknown:
+            chk.fail(rid, what + ':atom', _floc(fn), '%s depends on a condition outside its specification: %s' % (what, unknown[:2]),
+                     key='%s|%s|unknown-atom' % (rid, what))
+            continue
+        free = [n for n in names if n not in assign]
+        for vals in itertools.product([0, 1], repeat=len(free)):
+            full = dict(assign)
+            full.update(zip(free, vals))
+            if free_val:
+                got = full[free_val[0]] if free_val[1] == 1 else 1 - full[free_val[0]]
+            else:
+                got = int(val)
+            row = tuple(full[n] for n in names)
+            seen[row] = got
+            if bool(got) == spec(full):
+                chk.ok(rid, '%s:row%s' % (what, ''.join(map(str, row))), '%s -> %s' % (full, got))
+            else:
+                chk.fail(rid, '%s:row%s' % (what, ''.join(map(str, row))), _floc(fn),
+                         '%s returns %s for %s; the specification requires %s' % (what, bool(got), full, spec(full)),
+                         key='%s|%s|row|%s' % (rid, what, ''.join(map(str, row))))
+    if len(seen) != 2 ** len(names):
+        chk.fail(rid, what + ':coverage', _floc(fn), '%s: %d of %d rows derived' % (what, len(seen), 2 ** len(names)),
+                 key='%s|%s|coverage' % (rid, what))
